@@ -13,6 +13,17 @@ import z3
 
 _counter = itertools.count()
 
+# z3.StringVal parses escape sequences (\u00e9, \x41, \u{..}) in its argument; python strings reaching the solver are
+# data, never escapes, so every backslash is passed as the escape of itself.
+if not getattr(z3, "_pyvc_safe_stringval", False):
+    _orig_StringVal = z3.z3.StringVal
+
+    def _safe_StringVal(s, ctx=None):
+        return _orig_StringVal(s.replace("\\", "\\u{5c}") if isinstance(s, str) else s, ctx)
+    z3.z3.StringVal = _safe_StringVal
+    z3.StringVal = _safe_StringVal
+    z3._pyvc_safe_stringval = True
+
 
 def fresh_name(base):
     return "%s!%d" % (base, next(_counter))
